@@ -2,6 +2,11 @@ import gfapy
 
 class Validation:
 
+  def _validate_record_type_specific_info(self):
+    # (begin <= end, use of the $ marker: also for a line outside a Gfa)
+    for n in ["1","2"]:
+      self._substring_type(self.get("beg"+n), self.get("end"+n))
+
   def validate_positions(self):
     "Checks that positions suffixed by $ are the last position of segments"
     if self.is_connected():
